@@ -91,7 +91,7 @@ def draw(rng, alg):
 def run_shard(spec, rng, ctx):
     end = C.budget(spec)
     i = 0
-    while i < spec["max_cases"] and time.time() < end:
+    while i < spec["max_cases"] and C.now() < end:
         judge(draw(rng, ALGS[i % 4]), ctx)
         i += 1
 
